@@ -1,6 +1,7 @@
 //! srvsim driver: the real agdb_server compiled in-process and driven through its axum Router
 //! on a current_thread tokio runtime (engine E3).
 
+mod c24;
 mod c25;
 mod c31;
 mod server;
@@ -16,6 +17,13 @@ fn c31_exec(plan: &Value, t: &mut Trials) -> RunReport {
     c31::exec(&plan, t)
 }
 
+fn c24_gen(seed: u64, run: u64, tier: Tier) -> Value {
+    serde_json::to_value(c24::generate(seed, run, tier)).unwrap()
+}
+fn c24_exec(plan: &Value, t: &mut Trials) -> RunReport {
+    let plan: c24::Plan = serde_json::from_value(plan.clone()).expect("bad plan");
+    c24::exec(&plan, t)
+}
 fn c25_gen(seed: u64, run: u64, tier: Tier) -> Value {
     serde_json::to_value(c25::generate(seed, run, tier)).unwrap()
 }
@@ -48,6 +56,26 @@ fn find(id: &str) -> Option<CheckDef> {
             real: REAL,
             stub: STUB,
             eval_unit: "concurrent-commit runs compared with sequential execution",
+        }),
+        "C24" => Some(CheckDef {
+            id: "C24",
+            level: "exploration",
+            generate: c24_gen,
+            exec: c24_exec,
+            steps: "/reqs",
+            runs: |t| match t {
+                Tier::Quick => 400,
+                Tier::Thorough => 6000,
+            },
+            wall_cap_s: |t| match t {
+                Tier::Quick => 150,
+                Tier::Thorough => 1700,
+            },
+            rule: "histories = seeded multi-user request sequences against the in-process server (admin adds users, login with good/bad password, logout of one/all sessions, db add / delete / copy, role grants and removals, exec, exec_mut with mutating and read-only batches, optimize, backup, audit, user list, db list, admin endpoints), each issued with a token drawn from {a session opened earlier in the history - possibly logged out or expired meanwhile, garbage, none}; faults: clock jumps past and back before token expiry (H5 hook) and server restarts (state rebuilt from the data directory); a permission model built from the documented table (owner / read / write / admin role / server admin; exec_mut needs write even for read-only batches) predicts allow or deny for every request, the status class must agree, and after every request the observable state (users, databases, roles, node counts, read with a separate admin probe session) must equal the model, so a denied request has no effect and a revoked right is gone for the very next request; evaluations = requests judged; distinct_nontrivial = histories (plan hash) with at least one denied and one allowed mutating request",
+            assumptions: &["token expiry is judged with a margin of 50 s (expiry 1050 s, jumps in multiples of 100 s) so second-granularity wall-clock drift during a run cannot flip a verdict", "requests whose outcome the documentation leaves open (removing a non-member, renaming across owners) are not generated"],
+            real: REAL,
+            stub: STUB,
+            eval_unit: "requests judged against the permission model",
         }),
         "C25" => Some(CheckDef {
             id: "C25",
